@@ -166,6 +166,9 @@ pub struct HandlerRunner {
     chal_issued: HashMap<(u64, u64), (u64, SocketAddr)>,
     /// C19: the 4-byte counter in front of every message nonce, per key -> the nonce it was seen in
     key_ctr: HashMap<([u8; 16], [u8; 4]), [u8; 12]>,
+    /// C15: the datagram being delivered opens under a known key, but nothing was exchanged with its
+    /// source for longer than the session timeout (real clock, 100 ms to spare): Some(idle ms)
+    cur_stale_authentic: Option<u64>,
     hs_delivered: HashMap<(u64, SocketAddr), u64>,
     /// when a node last sealed something fresh for (address, node): its session was certainly alive then
     entry_lo: HashMap<(u64, SocketAddr, u64), std::time::Instant>,
@@ -174,7 +177,17 @@ pub struct HandlerRunner {
     entry_dirty: HashSet<(u64, SocketAddr)>,
     /// sessions that went away without such a reason (node, address, peer, last certain use, when
     /// noticed, latest possible use of every other entry of the node at that moment)
-    vanished: Vec<(u64, SocketAddr, u64, std::time::Instant, HashMap<SocketAddr, std::time::Instant>)>,
+    vanished: Vec<(u64, SocketAddr, u64, u64, HashMap<SocketAddr, u64>)>,
+    /// the same bookkeeping in observation order (one counter for everything the harness sees; operations
+    /// settle one after the other, so this order is the order in which things happened at a node):
+    /// possible uses of a node's session with an address, moments at which a node may have created a
+    /// session (it sealed a handshake, or a handshake that opens was delivered to it), fresh seals
+    obs: u64,
+    use_log: Vec<(u64, SocketAddr, u64)>,
+    create_log: Vec<(u64, u64)>,
+    seal_log: Vec<(u64, SocketAddr, u64, [u8; 16], u64)>,
+    key_born_obs: HashMap<[u8; 16], u64>,
+    entry_lo_obs: HashMap<(u64, SocketAddr, u64), u64>,
     next_del: usize,
     next_wru: HashMap<u64, usize>,
     next_req: HashMap<u64, usize>,
@@ -224,10 +237,17 @@ impl Default for HandlerRunner {
             entry_use: HashMap::new(),
             chal_issued: HashMap::new(),
             key_ctr: HashMap::new(),
+            cur_stale_authentic: None,
             hs_delivered: HashMap::new(),
             entry_lo: HashMap::new(),
             entry_dirty: HashSet::new(),
             vanished: Vec::new(),
+            obs: 0,
+            use_log: Vec::new(),
+            create_log: Vec::new(),
+            seal_log: Vec::new(),
+            key_born_obs: HashMap::new(),
+            entry_lo_obs: HashMap::new(),
             next_del: 0,
             next_wru: HashMap::new(),
             next_req: HashMap::new(),
@@ -556,6 +576,9 @@ impl HandlerRunner {
                             self.keys.push((k.recipient_key, t_rcp));
                             self.key_born.insert(k.initiator_key, std::time::Instant::now());
                             self.key_born.insert(k.recipient_key, std::time::Instant::now());
+                            self.obs += 1;
+                            self.key_born_obs.insert(k.initiator_key, self.obs);
+                            self.key_born_obs.insert(k.recipient_key, self.obs);
                         }
                         ct = self.ct_term(p.nonce, nn, &p.message, &aad, owner, true).0;
                     }
@@ -821,6 +844,13 @@ impl HandlerRunner {
             out.push(format!("!MON C03 handshake-without-outstanding-challenge-acted-on node={} reaction={}", idx,
                 events.iter().chain(sends.iter()).next().map(|s| s.chars().take(60).collect::<String>()).unwrap_or_default()));
         }
+        // C15: a message that arrives after the session timeout has passed since the last exchange is a
+        // message from a peer without a session: the handler asks who that is, it does not accept it
+        if let Some(idle) = self.cur_stale_authentic.take() {
+            if !events.iter().any(|e| e.starts_with("wru>")) {
+                out.push(format!("!MON C15 message-accepted-by-a-session-idle-for-longer-than-the-timeout node={} idle_ms={}", idx, idle));
+            }
+        }
         let all: Vec<String> = events.into_iter().chain(sends).collect();
         let ex = self.exempt(ni);
         self.mon_exempt(ni, out);
@@ -929,7 +959,7 @@ impl HandlerRunner {
                             // C15: a session that went away for no reason of its own was evicted; one that
                             // was certainly used less recently (its key is older than, and every possible use
                             // of it precedes, the last certain use of the evicted one) cannot have survived it
-                            if let Some(born) = self.key_born.get(&k) {
+                            if let Some(born) = self.key_born_obs.get(&k) {
                                 for v in &self.vanished {
                                     if v.0 == from && v.1 != d && *born < v.3 && v.4.get(&d).map(|h| *h < v.3).unwrap_or(false) {
                                         out.push(format!("!MON C15 session-dropped-while-a-less-recently-used-one-was-kept node={} dropped={} kept={}", from, v.2, dst_idx));
@@ -939,6 +969,13 @@ impl HandlerRunner {
                             self.entry_use.insert((from, d), now);
                             self.entry_lo.insert((from, d, dst_idx), now);
                             self.entry_dirty.remove(&(from, d));
+                            self.obs += 1;
+                            self.use_log.push((from, d, self.obs));
+                            self.seal_log.push((from, d, dst_idx, k, self.obs));
+                            self.entry_lo_obs.insert((from, d, dst_idx), self.obs);
+                            if matches!(p.kind, PacketKind::Handshake { .. }) {
+                                self.create_log.push((from, self.obs));
+                            }
                         }
                         // C15: a packet made after an idle period longer than the session timeout
                         // must not be sealed under a key from before that period
@@ -976,11 +1013,34 @@ impl HandlerRunner {
                 if matches!(p.kind, PacketKind::Message { .. }) && self.last_emit_sessionless(p.nonce, &p.message, &aad) {
                     let fresh_bytes = !self.wire.iter().any(|w| w.from_idx == from && w.bytes == bytes);
                     if let (Some(d), true) = (self.wire_dst_hint, fresh_bytes) {
-                        if let Some(lo) = self.entry_lo.remove(&(from, d, dst_idx)) {
+                        self.entry_lo.remove(&(from, d, dst_idx));
+                        if let Some(lo) = self.entry_lo_obs.remove(&(from, d, dst_idx)) {
                             if !self.entry_dirty.contains(&(from, d)) && self.ttl_ms >= 86_400_000 {
-                                let snap: HashMap<SocketAddr, std::time::Instant> =
-                                    self.entry_use.iter().filter(|((n, a), _)| *n == from && *a != d).map(|((_, a), t)| (*a, *t)).collect();
-                                self.vanished.push((from, d, dst_idx, lo, snap));
+                                // it was evicted when the node made room for a new session: at one of the moments
+                                // since its last certain use at which the node may have created one
+                                let cmax = self.create_log.iter().filter(|(n, c)| *n == from && *c > lo).map(|(_, c)| *c).max();
+                                if let Some(cmax) = cmax {
+                                    // latest possible use of every other entry up to the last such moment
+                                    let mut hib: HashMap<SocketAddr, u64> = HashMap::new();
+                                    for (n, a, t) in &self.use_log {
+                                        if *n == from && *a != d && *t <= cmax {
+                                            let e = hib.entry(*a).or_insert(0);
+                                            if *t > *e { *e = *t; }
+                                        }
+                                    }
+                                    // an entry that was certainly used less recently and was still sealed under,
+                                    // with its old key, after that moment survived the eviction
+                                    for (n, a, di, key, t) in &self.seal_log {
+                                        if *n == from && *a != d && *t > cmax
+                                            && self.key_born_obs.get(key).map(|b| *b < lo).unwrap_or(false)
+                                            && hib.get(a).map(|h| *h < lo).unwrap_or(false)
+                                        {
+                                            out.push(format!("!MON C15 session-dropped-while-a-less-recently-used-one-was-kept node={} dropped={} kept={}", from, dst_idx, di));
+                                            break;
+                                        }
+                                    }
+                                    self.vanished.push((from, d, dst_idx, lo, hib));
+                                }
                             }
                         }
                         self.entry_dirty.remove(&(from, d));
@@ -1316,6 +1376,7 @@ impl HandlerRunner {
             self.cur_wru_foreign = false;
             self.cur_hs_unchallenged = false;
             self.cur_wru_finished = false;
+            self.cur_stale_authentic = None;
         }
         match t {
             // application of node X sends a request to node Y
@@ -1530,6 +1591,9 @@ impl HandlerRunner {
                     v
                 } else if *k == "last" {
                     self.wire.len().wrapping_sub(1)
+                } else if let Some(y) = k.strip_prefix("from").and_then(|y| y.parse::<u64>().ok()) {
+                    // the latest datagram node Y put on the wire (presented again)
+                    self.wire.iter().rposition(|d| d.from_idx == y).unwrap_or(usize::MAX)
                 } else if *k == "skip" {
                     // loss: the next datagram is never delivered
                     if self.next_del < self.wire.len() { self.next_del += 1; stats.bump("h.op.loss"); }
@@ -1559,7 +1623,28 @@ impl HandlerRunner {
                 self.cur_key = self.last_ct_key;
                 self.delivering_handshake = term.as_ref().map(|t| t.starts_with("H~")).unwrap_or(false);
                 self.cur_authentic = term.as_ref().map(|t| t.contains("E[")).unwrap_or(false);
+                self.cur_stale_authentic = None;
+                if self.cur_authentic && term.as_ref().map(|t| t.starts_with("M~")).unwrap_or(false) {
+                    let now = std::time::Instant::now();
+                    let born = self.cur_key.and_then(|k| self.key_born.get(&k).copied());
+                    let base = match (self.entry_use.get(&(tidx, src)).copied(), born) {
+                        (Some(a), Some(b)) => Some(a.max(b)),
+                        (None, Some(b)) => Some(b),
+                        _ => None,
+                    };
+                    if let Some(b) = base {
+                        let idle = now.duration_since(b).as_millis() as u64;
+                        if idle > self.ttl_ms.saturating_add(100) {
+                            self.cur_stale_authentic = Some(idle);
+                        }
+                    }
+                }
                 if self.cur_authentic {
+                    self.obs += 1;
+                    self.use_log.push((tidx, src, self.obs));
+                    if self.delivering_handshake {
+                        self.create_log.push((tidx, self.obs));
+                    }
                     self.entry_use.insert((tidx, src), std::time::Instant::now());
                     // (an answer to one of the handler's own requests may end the session: record not valid)
                     if term.as_ref().map(|t| t.contains("resp/1000")).unwrap_or(false) {
@@ -2005,12 +2090,25 @@ pub fn gen_case(rng: &mut Rng, tier: &str, profile: &str, stats: &mut Stats) -> 
             ops.push(format!("hresp {} next auto", p));
             ops.push("hdel next".into());
         }
-        ops.push(format!("hreq {} {} enr {} {}", x, y, rid, rng.range(1, 4))); rid += 1;
-        ops.push("hdel next".into());
+        // (variant: the older session is the one used last after all - by answering a request of that
+        // peer which arrived before the other session's traffic: sealing an answer is a use)
+        let answer_late = rng.chance(1, 2);
+        if answer_late {
+            stats.bump("gen.cases.c15-eviction-after-late-answer");
+            ops.push(format!("hreq {} {} enr {} {}", y, x, rid, rng.range(1, 4))); rid += 1;
+            ops.push("hdel next".into());
+        } else {
+            ops.push(format!("hreq {} {} enr {} {}", x, y, rid, rng.range(1, 4))); rid += 1;
+            ops.push("hdel next".into());
+        }
         for _ in 0..rng.range(1, 2) {
             ops.push(format!("hreq {} {} enr {} {}", x, z, rid, rng.range(1, 4))); rid += 1;
             ops.push("hdel next".into());
             ops.push(format!("hresp {} next auto", z));
+            ops.push("hdel next".into());
+        }
+        if answer_late {
+            ops.push(format!("hresp {} next auto", x));
             ops.push("hdel next".into());
         }
         ops.push(format!("hcraft random 9 {}", x));
@@ -2028,6 +2126,34 @@ pub fn gen_case(rng: &mut Rng, tier: &str, profile: &str, stats: &mut Stats) -> 
             ops.push(format!("hwru {} next known", p));
             for _ in 0..3 { ops.push("hdel next".into()); }
         }
+        ops.push("hquiet".into());
+        return ops;
+    }
+    if c15 && rng.chance(1, 5) {
+        // directed case: a session and this node's own unanswered challenge for the same peer exist side by
+        // side (the peer's stray packet was reported to the application before the session came about, the
+        // WHOAREYOU went out after); a request made meanwhile only queues up - that is no use of the
+        // session, which is gone once the timeout has passed since the last exchange
+        stats.bump("gen.cases.c15-queued-request-is-no-use-of-the-session");
+        let x = rng.range(1, 2);
+        let y = 3 - x;
+        ops.push(format!("hworld 2 1 1000 {} 300", rng.range(2, 3)));
+        ops.push(format!("hcraft random {} {}", y, x));
+        ops.push(format!("hdel last {}", y));
+        ops.push("hdel skip".into());
+        ops.push(format!("hreq {} {} enr 1 1", x, y));
+        for _ in 0..2 { ops.push("hdel next".into()); }
+        ops.push(format!("hwru {} next known", y));
+        for _ in 0..3 { ops.push("hdel next".into()); }
+        ops.push(format!("hresp {} next auto", y));
+        ops.push("hdel next".into());
+        ops.push(format!("hwru {} next known", x));
+        ops.push("hdel skip".into());
+        ops.push("hsleep 200".into());
+        ops.push(format!("hreq {} {} enr 2 {}", x, y, rng.range(1, 4)));
+        ops.push("hsleep 220".into());
+        // the peer's last datagram is presented again
+        ops.push(format!("hdel from{}", y));
         ops.push("hquiet".into());
         return ops;
     }
